@@ -314,7 +314,14 @@ fn run_once(p: &Arc<Program>, oracle: &Oracle, col: &Collector, bound: u32, samp
                 outcome.push_str(&format!("ack{}#{}={};", s.0, s.1, status_short(&s.2)));
             }
         }
-        outcome.push_str(&format!("store={:?};w={}", run.obs_end.store.iter().map(|e| (e.0, e.1, e.4)).collect::<Vec<_>>(), run.obs_end.weight_used));
+        outcome.push_str(&format!(
+            "store={:?};w={};acc={}/{}/{}",
+            run.obs_end.store.iter().map(|e| (e.0, e.1, e.4)).collect::<Vec<_>>(),
+            run.obs_end.weight_used,
+            run.obs_end.stats[ACCESS_ADDED],
+            run.obs_end.stats[ACCESS_DROPPED],
+            run.obs_end.buffered.iter().map(|b| b.len()).sum::<usize>()
+        ));
         col.outcome(outcome.clone());
         // distinct call/return histories in which something overlapped
         let client: Vec<&Call> = run.calls.iter().filter(|c| c.thread < PHASE_INIT).collect();
